@@ -20,7 +20,7 @@ HARNESSES = [
 ]
 GROUPS = {"life": "(check_life pinned)"}
 EXPLAIN = {"life": "(explain_life pinned)"}
-CASES = {"quick": 300, "thorough": 5000}
+CASES = {"quick": 300, "thorough": 4000}
 RULE = ("cases: histories of 5-12 steps over client ids {A,B}: connect (cleanSession true/false, incl. takeover of a live id), subscribe/"
         "unsubscribe (5 filters), drop of ANY still-open connection incl. superseded ones (socket close / DISCONNECT / one more packet), "
         "admin delete, QoS-0 HTTP publish; after every step Broker.clients, sessionMap, session store and topic trie are snapshotted. "
